@@ -58,6 +58,9 @@ func (o regOp) String() string {
 		if o.Wrap > 0 && o.Wrap < 3 {
 			s += fmt.Sprintf(",wrapped x%d", o.Wrap)
 		}
+		if o.Wrap == 5 {
+			s += ",behind two nested by-value decorators of one non-comparable type"
+		}
 		if o.Wrap == 3 {
 			s += ",by-value node of a non-comparable type"
 		}
@@ -105,6 +108,8 @@ func (o regOp) String() string {
 			return fmt.Sprintf("RemovePipelineAndNodes(ctx-cancelled,%s/%s)", o.Typ, o.PID)
 		}
 		return fmt.Sprintf("RemovePipelineAndNodes(%s/%s)", o.Typ, o.PID)
+	case "retype":
+		return fmt.Sprintf("node %q is reconfigured in place: its Type() is %s from now on", o.ID, kindName(el.NodeType(o.NodeKind)))
 	case "rmnode":
 		if o.CtxDone {
 			return fmt.Sprintf("RemoveNode(ctx-cancelled,%q)", o.ID)
@@ -246,6 +251,11 @@ func (w *regWorld) apply(op regOp) (ms []mismatch, failed bool) {
 		if op.Wrap == 3 {
 			reg = valueNode{inner: reg, tags: []string{"not", "comparable"}} // a by-value node of a non-comparable type
 		}
+		if op.Wrap == 5 {
+			// a by-value decorator of a non-comparable type around another value of the SAME type around the Closer
+			reg = valueNode{inner: valueNode{inner: reg, tags: []string{"inner"}}, tags: []string{"outer"}}
+			simrt.Probe("registry.nested-by-value-decorators")
+		}
 		if op.Wrap == 4 {
 			cw := &closerWrap{inner: obj} // a decorator that is a Closer and a NodeUnwrapper
 			reg = cw
@@ -363,6 +373,12 @@ func (w *regWorld) apply(op regOp) (ms []mismatch, failed bool) {
 				add("rpan-close-error", "", "%s: Close of %s failed but no error was returned", op, o.Label)
 			}
 		}
+	case "retype":
+		// (only while no pipeline lists it: what running pipelines make of a node that changes kind is another matter)
+		if mn := w.model.nodes[op.ID]; mn != nil && !w.model.inUse(op.ID) {
+			mn.obj.Kind = el.NodeType(op.NodeKind)
+			simrt.Probe("registry.node-reconfigured-in-place")
+		}
 	case "rmnode":
 		var obj *recNode
 		if n, ok := w.model.nodes[op.ID]; ok {
@@ -467,7 +483,7 @@ func (w *regWorld) apply(op regOp) (ms []mismatch, failed bool) {
 		if failingWrap != nil {
 			if err == nil {
 				add("reopen-error", "swallowed-wrapper", "the registered node %s (a NodeUnwrapper wrapper) failed in Reopen but Broker.Reopen returned nil", op.FailNode)
-			} else if !errors.Is(err, failingWrap.ReopenErr) && !strings.Contains(err.Error(), failingWrap.ReopenErr.Error()) {
+			} else if !carriesFailure(err, failingWrap.ReopenErr) {
 				add("reopen-error", "not-carried", "Broker.Reopen returned %q which does not carry the wrapper's failure %q", err, failingWrap.ReopenErr)
 			}
 		} else if failing == nil {
@@ -494,7 +510,7 @@ func (w *regWorld) apply(op regOp) (ms []mismatch, failed bool) {
 		} else {
 			if err == nil {
 				add("reopen-error", "swallowed", "node %s failed in Reopen but Broker.Reopen returned nil", failing.Label)
-			} else if !errors.Is(err, failing.ReopenErr) && !strings.Contains(err.Error(), failing.ReopenErr.Error()) {
+			} else if !carriesFailure(err, failing.ReopenErr) {
 				add("reopen-error", "not-carried", "Broker.Reopen returned %q which does not carry the node's failure %q", err, failing.ReopenErr)
 			}
 		}
@@ -796,6 +812,11 @@ func runRegistrySeqOps(rc *RunCtx, prop string, fixed []regOp) {
 			"C20": {3, 6, 2, 1, 1, 0, 5, 2},
 			"C02": {6, 6, 1, 1, 1, 6, 0, 0},
 		}[prop]
+		if prop == "C05" && tp.Choose(10, "node-reconfigured") == 0 {
+			// a node is reconfigured in place (an output that is a sink while enabled and a pass-through filter
+			// while disabled): what it IS is what its Type() says when a definition is judged
+			return regOp{Kind: "retype", ID: id, NodeKind: []int{int(el.NodeTypeFilter), int(el.NodeTypeFormatter), int(el.NodeTypeFormatterFilter), int(el.NodeTypeSink)}[tp.Choose(4, "kind")]}
+		}
 		tot := 0
 		for _, x := range weights {
 			tot += x
@@ -822,7 +843,7 @@ func runRegistrySeqOps(rc *RunCtx, prop string, fixed []regOp) {
 				o.CloseErr = true // C05: a RemoveNode that fails because the node's Close fails is a failing call too
 			}
 			if (prop == "C06" || prop == "C20") && tp.Choose(4, "wrap") == 0 {
-				o.Wrap = 1 + tp.Choose(4, "wraplevels") // 3: a by-value node of a non-comparable type; 4: a decorator that is a Closer too
+				o.Wrap = 1 + tp.Choose(5, "wraplevels") // 3: a by-value node of a non-comparable type; 4: a decorator that is a Closer too; 5: as 3, two levels of the same type
 			}
 			if prop == "C06" && o.Wrap == 0 && !o.CloseErr && tp.Choose(5, "alias") == 0 {
 				o.Alias = ids[tp.Choose(len(ids), "aliasof")]
@@ -1143,6 +1164,16 @@ func reopenFailure(label string, k int) error {
 	return errors.New(msg)
 }
 
+// carriesFailure: the error a caller gets carries a node's failure when the failure can be reached through
+// its chain (errors.Is), or when its text holds the failure's text in a well-formed message (a rendering
+// with fmt's bad-verb markers in it is a formatting accident, not a report).
+func carriesFailure(err, failure error) bool {
+	if errors.Is(err, failure) {
+		return true
+	}
+	return strings.Contains(err.Error(), failure.Error()) && !strings.Contains(err.Error(), "%!")
+}
+
 // reopenErrList is an error whose dynamic type is not comparable (like go/scanner.ErrorList).
 type reopenErrList []string
 
@@ -1183,7 +1214,7 @@ func runReopenConc(rc *RunCtx) {
 			simrt.Probe("reopen.nodes-sharing-an-address")
 		} else {
 			m = mk(fmt.Sprintf("m%d", p), el.NodeTypeFormatter)
-			k = mk(fmt.Sprintf("k%d", p), el.NodeTypeSink)
+			k = mk(fmt.Sprintf("k%d-%%2Fvar%%2Flog-100%%", p), el.NodeTypeSink) // (ids are opaque strings)
 		}
 		ids := []el.NodeID{el.NodeID(f.label), el.NodeID(m.label), el.NodeID(k.label)}
 		if p == 0 && zeroSize {
@@ -1308,7 +1339,7 @@ func runReopenConc(rc *RunCtx) {
 				rc.Failf("C20.reopen-error", "swallowed-conc", "the sinks of %d event types fail in Reopen but Reopen call %d returned nil", len(wideFailing), i)
 				return
 			}
-			if !strings.Contains(c.err.Error(), "injected reopen error of kx") {
+			if !strings.Contains(c.err.Error(), "injected reopen error of kx") || strings.Contains(c.err.Error(), "%!") {
 				rc.Failf("C20.reopen-error", "not-carried-conc", "Reopen call %d returned %q which carries none of the failing nodes' errors", i, c.err)
 			}
 			continue
@@ -1333,7 +1364,7 @@ func runReopenConc(rc *RunCtx) {
 			// the failing node was certainly registered for the whole call
 			rc.Failf("C20.reopen-error", "swallowed-conc", "node %s fails in Reopen but Reopen call %d returned nil", failing.label, i)
 			return
-		} else if !strings.Contains(c.err.Error(), failing.fail.Error()) && (failing2 == nil || !strings.Contains(c.err.Error(), failing2.fail.Error())) {
+		} else if !carriesFailure(c.err, failing.fail) && (failing2 == nil || !carriesFailure(c.err, failing2.fail)) {
 			rc.Failf("C20.reopen-error", "not-carried-conc", "Reopen call %d returned %q which does not carry %q", i, c.err, failing.fail)
 		}
 	}
